@@ -38,12 +38,25 @@ func vh_dispatch() {
 	for i := 0; i < k; i++ {
 		fs = append(fs, vArbFuture("f"))
 	}
+	var cstore *mCommitLogStore
+	if vChoose("commitTracking", 0, 1) == 1 {
+		cstore = &mCommitLogStore{mLogStore: st, staged: vU64("staged")}
+		vAssume(cstore.staged <= r.commitIndex)
+		r.logs = cstore
+		r.RestoreCommittedLogs = true
+	}
 	pre := vSnap(r, env)
 	preInflight := r.leaderState.inflight.Len()
 	preMatch, selfSlot := r.leaderState.commitment.matchIndexes[r.localID]
 	st.failOn = true
 	r.dispatchLogs(fs)
 	st.failOn = false
+	if cstore != nil {
+		vCover("dispatch.commit-tracking")
+		// what a restart would treat as committed never exceeds what is committed now
+		vAssert(cstore.staged <= pre.commit, "C05.dispatch.staged-commit-index-is-committed")
+		vAssert(cstore.staged <= pre.commit, "C10.dispatch.staged-commit-index-is-committed")
+	}
 	post := vSnap(r, env)
 	nStore := 0
 	var sc mCall
